@@ -11,6 +11,8 @@ pub fn estimate_next_chunk_time(
     volume_coverage_pattern: &nexrad_decode::messages::volume_coverage_pattern::Message,
     timing_stats: Option<&ChunkTimingStats>,
 ) -> Option<DateTime<Utc>> {
+    #[cfg(nexrad_verif)]
+    use crate::verif::Utc;
     use super::get_elevation_from_chunk;
 
     if let Some(previous_sequence) = previous_chunk.sequence() {
